@@ -8,6 +8,8 @@
 package main
 
 import (
+	"errors"
+	"net"
 	"encoding/json"
 	"net/http"
 	"fmt"
@@ -16,6 +18,7 @@ import (
 	"strings"
 	"time"
 
+	"github.com/google/martian/v3/trafficshape"
 	"github.com/google/martian/v3/zzverif/vrt"
 
 	"verif/checks/pworld"
@@ -32,6 +35,8 @@ type scenario struct {
 	Place []int  // stage per connection
 	Order []int  // release order (indices into Place)
 	Late  string // "", "racing", "after"
+	RTErr bool   // the upstream round trip of every exchange fails (the complete response is then the proxy's 502)
+	Shaped bool  // the proxy serves a trafficshape.Listener (closing that listener has side effects on the connections it accepted)
 }
 
 func (s scenario) String() string {
@@ -39,7 +44,7 @@ func (s scenario) String() string {
 	for _, x := range s.Place {
 		p = append(p, stageName[x])
 	}
-	return fmt.Sprintf("place=%v order=%v late=%q", p, s.Order, s.Late)
+	return fmt.Sprintf("place=%v order=%v late=%q rterr=%v shaped=%v", p, s.Order, s.Late, s.RTErr, s.Shaped)
 }
 
 type finding struct {
@@ -65,8 +70,15 @@ func run(sc scenario) (body func(), check func(r *vrt.Result) []finding) {
 		clients = make([]*pworld.Client, len(sc.Place))
 		clientDone = make([]bool, len(sc.Place))
 		late, lateDone, closeRet, retProblems, timeAdvanced, lateAfterShutdown = nil, false, false, nil, false, false
-		w.Respond = func(req *http.Request) (*http.Response, error) { return nil, nil }
 		w.Respond = nil
+		if sc.RTErr {
+			w.Respond = func(req *http.Request) (*http.Response, error) {
+				return nil, errors.New("simulated upstream failure")
+			}
+		}
+		if sc.Shaped {
+			w.Wrap = func(l net.Listener) net.Listener { return trafficshape.NewListener(l) }
+		}
 		w.Start()
 		for i, st := range sc.Place {
 			i, st := i, st
@@ -284,7 +296,11 @@ func run(sc scenario) (body func(), check func(r *vrt.Result) []finding) {
 				return
 			}
 			for k, res := range c.Responses {
-				if !res.Complete || res.Status != 200 || len(res.Body) == 0 {
+				wantStatus := 200
+				if sc.RTErr {
+					wantStatus = 502
+				}
+				if !res.Complete || res.Status != wantStatus || (len(res.Body) == 0 && !sc.RTErr) {
 					add("incomplete_response:"+stage, "client %s (%s): response %d incomplete (status %d, %d body bytes)", name, stage, k, res.Status, len(res.Body))
 				}
 				mustClose := k < len(ends) && callTick != 0 && callTick < ends[k].Tick
@@ -366,6 +382,21 @@ func scenarios(tier string) []scenario {
 			}
 		})
 	}
+	// the round trip fails (after shutdown began for the parked ones): the response owed is the 502
+	for st := 2; st <= 5; st++ {
+		for _, l := range []string{"", "racing"} {
+			out = append(out, scenario{Place: []int{st}, Order: []int{0}, Late: l, RTErr: true})
+		}
+		out = append(out, scenario{Place: []int{3, st}, Order: []int{1, 0}, RTErr: true})
+	}
+	// a traffic-shaped listener: what the accept loop does to the listener during the drain must not disturb the
+	// exchanges in flight
+	for st := 0; st <= 5; st++ {
+		for _, l := range []string{"", "racing"} {
+			out = append(out, scenario{Place: []int{st}, Order: []int{0}, Late: l, Shaped: true})
+		}
+	}
+	out = append(out, scenario{Place: []int{3, 4}, Order: []int{0, 1}, Late: "racing", Shaped: true}, scenario{Place: []int{2, 5}, Order: []int{1, 0}, Late: "racing", Shaped: true})
 	// zero parked connections: Close racing with a fresh connection only
 	out = append(out, scenario{Late: "racing"}, scenario{Late: "after"})
 	return out
